@@ -64,6 +64,11 @@ func c13Cases(c *ev.Ctx) []c13Case {
 		}
 		out = append(out, cc)
 	}
+	// valid key frames whose dequantised coefficients exceed what any encoder emits (level up to ~2000 times
+	// quantiser steps up to 157): the int16 range of the inverse transforms
+	for k := 0; k < c.N(24, 400); k++ {
+		out = append(out, c13Case{Kind: "dec-vp8-hugecoeff", Class: "-", Alpha: "-", W: 0, H: 0, Sub: k})
+	}
 	// wide pictures: vector-width dependent tails, scratch-buffer thresholds of the upsamplers
 	wides := []int{2047, 2048, 2049, 2100, 4095, 4096, 4097, 1023, 1025}
 	if c.Thorough() {
@@ -113,6 +118,14 @@ func c13Digest(c *ev.Ctx, idx int, cc c13Case) string {
 			d = "enc=" + ev.Sum(data) + " dec=" + imgDigest(dm)
 		case "dec-vp8":
 			pl, _ := vp8.Synthesize(r, vp8.Params{MaxSide: 96})
+			dm, err := decode(vp8.WrapRIFF(pl))
+			if err != nil {
+				d = errDigest(err)
+				return
+			}
+			d = imgDigest(dm)
+		case "dec-vp8-hugecoeff":
+			pl, _ := vp8.Synthesize(r, vp8.Params{MaxSide: 48, CoeffScale: 40})
 			dm, err := decode(vp8.WrapRIFF(pl))
 			if err != nil {
 				d = errDigest(err)
@@ -176,6 +189,12 @@ func c13Worker(args []string) int {
 	for i, d := range res {
 		enc.Encode(map[string]any{"i": i, "d": d})
 	}
+	// kernel level: every arch-specific kernel driven directly with corner and random vectors
+	for _, l := range kernelDigests(c.Seed, c.N(20000, 400000)) {
+		if k := strings.LastIndex(l, " "); k > 0 {
+			enc.Encode(map[string]any{"k": l[:k], "d": l[k+1:]})
+		}
+	}
 	enc.Encode(map[string]any{"done": true, "avx2_env": os.Getenv("VERIF_NOAVX2")})
 	return 0
 }
@@ -204,6 +223,7 @@ func runC13(c *ev.Ctx) {
 	}
 	vars := []variant{{"portable", port, nil}, {"avx2", ovl, nil}, {"sse2", ovl, []string{"VERIF_NOAVX2=1"}}}
 	res := make([]map[int]string, len(vars))
+	kern := make([]map[string]string, len(vars))
 	var wg sync.WaitGroup
 	for k, v := range vars {
 		wg.Add(1)
@@ -215,10 +235,12 @@ func runC13(c *ev.Ctx) {
 			cmd.Stderr = &se
 			out, err := cmd.Output()
 			m := map[int]string{}
+			km := map[string]string{}
 			done := false
 			for _, l := range strings.Split(string(out), "\n") {
 				var rec struct {
 					I    int
+					K    string
 					D    string
 					Done bool
 				}
@@ -227,10 +249,13 @@ func runC13(c *ev.Ctx) {
 				}
 				if rec.Done {
 					done = true
+				} else if rec.K != "" {
+					km[rec.K] = rec.D
 				} else {
 					m[rec.I] = rec.D
 				}
 			}
+			kern[k] = km
 			if err != nil || !done {
 				c.Violate(ev.Case{Idx: k, Desc: "build " + v.name}, "child-died", map[string]string{"build": v.name}, fmt.Sprintf("%v; %s", err, trimTail(se.String(), 2500)), nil)
 			}
@@ -270,6 +295,33 @@ func runC13(c *ev.Ctx) {
 			c.Sample(map[string]any{"case": cs.Desc, "digest_portable": ref, "digest_avx2": res[1][i], "digest_sse2": res[2][i]})
 		}
 	}
+	// kernel-level digests
+	if len(kern[0]) == 0 {
+		c.Fatal("the portable build printed no kernel digests (overlay exerciser missing?)")
+	}
+	nk := 0
+	for name, ref := range kern[0] {
+		nk++
+		c.Distinct("kernel|" + name)
+		for k := 1; k < len(vars); k++ {
+			d, ok := kern[k][name]
+			c.Eval(1)
+			if !ok || d != ref {
+				c.Violate(ev.Case{Idx: 2000000 + nk, Desc: "kernel " + name}, "kernel-differs", map[string]string{"kernel": name, "build": vars[k].name},
+					fmt.Sprintf("kernel %s: %s build digest %q, portable build %q (VERIF_KERN_DUMP=%s on cmd/kerndigest prints the vectors)", name, vars[k].name, d, ref, name), nil)
+			}
+		}
+	}
+	for k := 1; k < len(vars); k++ {
+		for name := range kern[k] {
+			if _, ok := kern[0][name]; !ok {
+				c.Violate(ev.Case{Idx: 2999999, Desc: "kernel " + name}, "kernel-differs", map[string]string{"kernel": name, "build": vars[k].name}, "kernel line missing in the portable build", nil)
+			}
+		}
+	}
+	c.Extra("kernels_exercised", nk)
+	c.Extra("kernel_vectors_per_kernel", c.N(20000, 400000))
+
 	// (b) cross compilation
 	gobin := os.Getenv("VERIF_GO")
 	repo := os.Getenv("VERIF_REPO_DIR")
